@@ -20,6 +20,8 @@ import (
 	"strings"
 	"time"
 
+	"github.com/sourcenetwork/immutable"
+
 	"github.com/sourcenetwork/defradb/client"
 	"github.com/sourcenetwork/defradb/internal/encoding"
 	"github.com/sourcenetwork/defradb/internal/keys"
@@ -418,7 +420,14 @@ var encKinds = []encKind{
 			}
 			return b
 		},
-		nv:  func(v any) client.NormalValue { return client.NewNormalBytes(v.([]byte)) },
+		// values of odd length travel as the nillable normal value (what a document field of kind Blob
+		// holds), the others as the plain one: both forms meet in every order / round-trip law (seeded C17-d)
+		nv: func(v any) client.NormalValue {
+			if b := v.([]byte); len(b)%2 == 1 {
+				return client.NewNormalNillableBytes(immutable.Some(b))
+			}
+			return client.NewNormalBytes(v.([]byte))
+		},
 		cmp: func(a, b any) int { return bytes.Compare(a.([]byte), b.([]byte)) },
 		back: func(nv client.NormalValue) (any, bool) {
 			if b, ok := nv.Bytes(); ok {
